@@ -363,6 +363,43 @@ func init() {
 		fr.C.addFact(And(Le(Add(a[1].Len, Num(16)), ln), Le(ln, Add(a[1].Len, Num(64)))))
 		return fr.makeSlice(st, res0(cc), ln, ln), st
 	})
+	// common.JoinBytes(parts...): concatenation, as an abstract byte string bcat(...) (for a statically known number of parts)
+	reg("github.com/zenon-network/go-zenon/common.JoinBytes", []string{"S:byte"}, func(fr *Frame, st *State, a []*Val, cc *ssa.CallCommon, pos token.Pos) (*Val, *State) {
+		c := fr.C
+		parts := a[0]
+		if !parts.Len.IsConst() || parts.Len.Val.Int64() > 8 {
+			st.havocKeys([]string{"S:byte"}, nil)
+			return fr.freshResult(cc.Signature(), "JoinBytes"), st
+		}
+		n := parts.Len.Val.Int64()
+		rd := func(leaf string, i int64) *Term {
+			h := st.heapGet("S:[]byte"+leaf, SArr(SInt, SArr(SInt, SInt)))
+			return Select(Select(h, parts.X), Add(parts.Off, Num(i)))
+		}
+		bytesH := st.heapGet("S:byte", SArr(SInt, SArr(SInt, SInt)))
+		total := Num(0)
+		var val *Term
+		for i := n - 1; i >= 0; i-- {
+			arr, off, ln := rd("#arr", i), rd("#off", i), rd("#len", i)
+			c.addFact(Le(Num(0), ln))
+			total = Add(total, ln)
+			v := c.bytesVal(Select(bytesH, arr), off, ln)
+			if val == nil {
+				val = v
+			} else {
+				val = c.bcat(v, val)
+			}
+		}
+		if val == nil {
+			val = c.bempty()
+		}
+		res := fr.makeSlice(st, res0(cc), total, total)
+		h := st.heapGet("S:byte", SArr(SInt, SArr(SInt, SInt)))
+		content := Fresh("join!content", SArr(SInt, SInt))
+		st.heapSet("S:byte", Store(h, res.X, content))
+		c.addFact(Eq(c.bytesVal(content, Num(0), total), val))
+		return res, st
+	})
 	reg("bytes.Equal", nil, func(fr *Frame, st *State, a []*Val, cc *ssa.CallCommon, pos token.Pos) (*Val, *State) {
 		arr := st.heapGet("S:byte", SArr(SInt, SArr(SInt, SInt)))
 		x, y := a[0], a[1]
@@ -480,6 +517,11 @@ func (c *Ctx) constGlobalValue(g *ssa.Global, name string, t types.Type) *Val {
 		if callee := call.Call.StaticCallee(); callee != nil && callee.Blocks != nil && returnsFreshAlloc(callee) {
 			return mkPtr(t, negID())
 		}
+	}
+	// exported error variables of dependencies (leveldb.ErrNotFound, rlp.EOL, io.EOF ...): non-nil, pairwise distinct, never
+	// reassigned (assumption)
+	if !inModule(g.Pkg.Pkg.Path()) && kindOf(t) == KIface && isErrorType(t) {
+		return &Val{K: KIface, T: t, X: negID()}
 	}
 	// unknown initialiser: a stable symbolic constant
 	var facts []*Term
